@@ -157,6 +157,6 @@ def run(c):
     net_runs(c, cfgs, 40 if th else 5, ("net:agreement", "net:panic"))
     # many heights with validator-set changes (power raised, a correct validator removed and re-added, the Byzantine
     # validator's power changed), with restarts of correct nodes, and the default configuration (WaitForTxs)
-    net_runs(c, ["4eq-change", "5w-change-restart"] + (["4eq-wait", "4w-wait-restart"] if th else []), 40 if th else 4,
+    net_runs(c, ["4eq-change", "5w-change-restart", "4eq-byz-leaves"] + (["4eq-wait", "4w-wait-restart"] if th else []), 40 if th else 4,
              ("net:agreement", "net:panic"))
     c.exhaustive = False
